@@ -365,6 +365,12 @@ func (e *cdcEndpoint) setUp(up bool) {
 	e.mu.Unlock()
 }
 
+func (e *cdcEndpoint) isUp() bool {
+	e.mu.Lock()
+	defer e.mu.Unlock()
+	return e.up
+}
+
 func (e *cdcEndpoint) ServeHTTP(w http.ResponseWriter, r *http.Request) {
 	body, err := io.ReadAll(r.Body)
 	if err != nil {
@@ -402,7 +408,7 @@ func (e *cdcEndpoint) ServeHTTP(w http.ResponseWriter, r *http.Request) {
 
 type cdcCounters struct {
 	commit, dropped, inTotal, inKept, markers, batchedObj, batches, enq atomic.Int64
-	lead, holding                                                       atomic.Bool
+	lead, holding, parked                                               atomic.Bool
 	leadEvents, events                                                  atomic.Int64
 }
 
@@ -416,6 +422,7 @@ func (c *cdcCounters) resetPipeline() {
 	c.batches.Store(0)
 	c.enq.Store(0)
 	c.holding.Store(false)
+	c.parked.Store(false)
 }
 
 func (c *cdcCounters) pipelineIdle() bool {
@@ -443,6 +450,16 @@ type cdcParams struct {
 	Backoff     time.Duration
 }
 
+// cdcFlap is a burst of back-to-back leadership signals in progress on one node.
+type cdcFlap struct {
+	ch       chan<- bool
+	sent     atomic.Int64 // signals put on the channel so far
+	arrivals atomic.Int64 // leader loops that reached the gate before their first stop check
+	hold     bool
+}
+
+func (f *cdcFlap) consumed() int64 { return f.sent.Load() - int64(len(f.ch)) }
+
 type cdcHeld struct {
 	to string
 	v  uint64
@@ -465,6 +482,8 @@ type cdcH struct {
 	bad     []map[string]any // payload-level mismatches found by the harness itself
 	notes   []string
 	nevents atomic.Int64
+	flapMu  sync.Mutex
+	flap    map[string]*cdcFlap
 	stuck   string
 	// live cluster: entry number of the workload -> Raft log index (known when Execute returns)
 	liveMu sync.Mutex
@@ -606,9 +625,13 @@ func (h *cdcH) sink(e vhook.Event) {
 			c.lead.Store(cdcBool(e.KV["is"]))
 			c.leadEvents.Add(1)
 			if !cdcBool(e.KV["is"]) {
+				if c.holding.Load() {
+					c.parked.Store(true) // the loop returned with a batch in hand: it is parked
+				}
 				c.holding.Store(false)
 			}
 		case "cdc.take":
+			c.parked.Store(false)
 			if !cdcBool(e.KV["skipped"]) {
 				c.holding.Store(true)
 			}
@@ -727,7 +750,11 @@ func (h *cdcH) stopNode(n *cdcNode) {
 		// left (batcher channels full, nobody reads batcher.C): only stop a service whose hand-off channel
 		// is drained, and do not wait for ever.
 		c := h.cnt[n.id]
-		cdcWait(30*time.Second, func() bool { return c.commit.Load()-c.dropped.Load() == c.inTotal.Load() })
+		svc0 := n.svc
+		cdcWait(30*time.Second, func() bool {
+			// ... and writeToBatcher has returned from every batcher write it began (cdc.in is logged before the write)
+			return c.commit.Load()-c.dropped.Load() == c.inTotal.Load() && int64(svc0.VerifWritesToBatcher()) >= c.inKept.Load()
+		})
 		done := make(chan struct{})
 		svc := n.svc
 		go func() { svc.Stop(); close(done) }()
@@ -797,6 +824,60 @@ func (h *cdcH) lead(id string, on bool) error {
 		return fmt.Errorf("leader loop of %s did not follow leadership=%v", id, on)
 	}
 	return nil
+}
+
+// flapBurst puts k pairs of back-to-back signals (leader, not leader) on the node's leadership channel
+// without waiting for the service in between: the way Raft reports an election won and lost again before
+// the service's main loop has handled the first observation.  With hold, every leader loop started
+// by the burst is held at its gate (before its first stop check) until the main loop has taken the
+// "not leader" signal that follows, so that the loop finds stop closed at its very first step - the
+// schedule a loaded machine produces by itself only now and then.  The node must not be leading.
+func (h *cdcH) flapBurst(id string, k int, hold bool) error {
+	n := h.nodes[id]
+	if n.want {
+		return fmt.Errorf("flap burst on %s while leading", id)
+	}
+	c := h.cnt[id]
+	n.stub.mu.Lock()
+	ch := n.stub.leaderCh
+	n.stub.mu.Unlock()
+	emit("", "c.flap", "node", id, "k", k, "parked", c.parked.Load(), "up", h.ep.isUp(), "hold", hold)
+	f := &cdcFlap{ch: ch, hold: hold}
+	h.flapMu.Lock()
+	h.flap[id] = f
+	h.flapMu.Unlock()
+	before := c.leadEvents.Load()
+	for i := 0; i < k; i++ {
+		ch <- true
+		f.sent.Add(1)
+		ch <- false
+		f.sent.Add(1)
+	}
+	ok := cdcWait(60*time.Second, func() bool { return c.leadEvents.Load() >= before+int64(2*k) && !c.lead.Load() && len(ch) == 0 })
+	h.flapMu.Lock()
+	delete(h.flap, id)
+	h.flapMu.Unlock()
+	if !ok {
+		return fmt.Errorf("flap burst on %s: %d of %d leader loops seen", id, (c.leadEvents.Load()-before)/2, k)
+	}
+	return nil
+}
+
+// gate is called by a leader loop goroutine right before its first stop check.
+func (h *cdcH) gate(point string, kv ...any) {
+	if point != "cdc.leaderloop" || len(kv) == 0 {
+		return
+	}
+	id, _ := kv[0].(string)
+	h.flapMu.Lock()
+	f := h.flap[id]
+	h.flapMu.Unlock()
+	if f == nil || !f.hold {
+		return
+	}
+	a := f.arrivals.Add(1)
+	cdcWait(3*time.Second, func() bool { return f.consumed() >= 2*a })
+	time.Sleep(2 * time.Millisecond) // the main loop closes stop right after it took the signal
 }
 
 func (h *cdcH) broadcast(from string, v uint64) error {
@@ -1105,6 +1186,80 @@ func cdcWitnesses() []cdcScenario {
 			}
 			return "n1", nil
 		}},
+		// endpoint outage while leading (a batch is in the retry loop), leadership lost (the batch is parked), then
+		// leadership won and lost again back to back - every new leader loop finds stop closed at its first step -
+		// then leadership and the endpoint return: the parked batch must still go first
+		{Name: "w-flap-burst-while-parked", Nodes: 1, Par: cdcFast, Script: func(h *cdcH, g *cdcGen) (string, error) {
+			return cdcFlapWitness(h, g, 3, false, true)
+		}},
+		{Name: "w-flap-burst-while-parked-endpoint-up", Nodes: 1, Par: cdcFast, Script: func(h *cdcH, g *cdcGen) (string, error) {
+			return cdcFlapWitness(h, g, 1, true, true)
+		}},
+		{Name: "w-flap-burst-20-while-parked-unheld", Nodes: 1, Par: cdcFast, Script: func(h *cdcH, g *cdcGen) (string, error) {
+			return cdcFlapWitness(h, g, 20, false, false)
+		}},
+		// flap burst with nothing parked: items wait in the FIFO, the endpoint is down
+		{Name: "w-flap-burst-nothing-parked", Nodes: 2, Par: cdcFast, Script: func(h *cdcH, g *cdcGen) (string, error) {
+			for i := 0; i < 4; i++ {
+				g.add("single")
+			}
+			h.setLog(g)
+			for _, id := range h.order {
+				if err := h.apply(id, 3); err != nil {
+					return "", err
+				}
+				if err := h.settle(id); err != nil {
+					return "", err
+				}
+			}
+			h.ep.setUp(false)
+			if err := h.flapBurst("n1", 5, true); err != nil {
+				return "", err
+			}
+			if err := h.flapBurst("n2", 2, false); err != nil {
+				return "", err
+			}
+			h.ep.setUp(true)
+			return "n2", nil
+		}},
+		// the batch is parked on n1, n2 takes over and delivers it from its own FIFO, n1 flaps and then leads again
+		{Name: "w-flap-burst-parked-delivered-by-other-node", Nodes: 2, Par: cdcFast, Script: func(h *cdcH, g *cdcGen) (string, error) {
+			for i := 0; i < 4; i++ {
+				g.add("single")
+			}
+			h.setLog(g)
+			for i := 0; i < 3; i++ {
+				for _, id := range h.order {
+					if err := h.apply(id, 1); err != nil {
+						return "", err
+					}
+					if err := h.settle(id); err != nil {
+						return "", err
+					}
+				}
+			}
+			h.ep.setUp(false)
+			if err := h.lead("n1", true); err != nil {
+				return "", err
+			}
+			cdcWait(10*time.Second, func() bool { return h.nodes["n1"].svc.NumEndpointRetries() >= 2 })
+			if err := h.lead("n1", false); err != nil {
+				return "", err
+			}
+			h.setHold(true) // n1 does not hear of n2's progress yet
+			h.ep.setUp(true)
+			if err := h.lead("n2", true); err != nil {
+				return "", err
+			}
+			cdcWait(5*time.Second, func() bool { return h.hwmOf("n2") >= 2 })
+			if err := h.lead("n2", false); err != nil {
+				return "", err
+			}
+			if err := h.flapBurst("n1", 4, true); err != nil {
+				return "", err
+			}
+			return "n1", nil
+		}},
 		// restart while a group is still in the batcher: the log replay brings it back
 		{Name: "w-restart-between-batcher-and-fifo", Nodes: 1, Par: cdcSlowBatch, Script: func(h *cdcH, g *cdcGen) (string, error) {
 			for i := 0; i < 4; i++ {
@@ -1253,6 +1408,46 @@ func cdcWitnesses() []cdcScenario {
 	}
 }
 
+// cdcFlapWitness: two batches queued, outage, lead, the first batch is retried, leadership lost (parked), flap burst
+// of k rounds, endpoint back (before or after the burst), lead again, one more entry.
+func cdcFlapWitness(h *cdcH, g *cdcGen, k int, upBefore, hold bool) (string, error) {
+	for i := 0; i < 3; i++ {
+		g.add("single")
+	}
+	h.setLog(g)
+	for i := 0; i < 2; i++ { // two batches: key 1, key 2
+		if err := h.apply("n1", 1); err != nil {
+			return "", err
+		}
+		if err := h.settle("n1"); err != nil {
+			return "", err
+		}
+	}
+	h.ep.setUp(false)
+	if err := h.lead("n1", true); err != nil {
+		return "", err
+	}
+	cdcWait(10*time.Second, func() bool { return h.nodes["n1"].svc.NumEndpointRetries() >= 2 })
+	if err := h.lead("n1", false); err != nil {
+		return "", err
+	}
+	if upBefore {
+		h.ep.setUp(true)
+	}
+	if err := h.flapBurst("n1", k, hold); err != nil {
+		return "", err
+	}
+	h.ep.setUp(true)
+	if err := h.lead("n1", true); err != nil {
+		return "", err
+	}
+	cdcWait(5*time.Second, func() bool { return h.hwmOf("n1") >= 2 })
+	if err := h.apply("n1", 1); err != nil {
+		return "", err
+	}
+	return "n1", nil
+}
+
 // random scenario: 1..3 nodes, entries of all kinds, leadership flips (also during retries), endpoint
 // outages, delayed HWM updates, snapshots and restarts.
 func cdcRandom(i int) cdcScenario {
@@ -1275,12 +1470,12 @@ func cdcRandom(i int) cdcScenario {
 		for step := 0; step < 14+rng.Intn(10); step++ {
 			id := h.order[rng.Intn(len(h.order))]
 			var err error
-			switch r := rng.Intn(20); {
+			switch r := rng.Intn(21); {
 			case r < 7:
 				err = h.apply(id, 1+rng.Intn(2))
 			case r < 9:
 				err = h.settle(id)
-			case r < 12: // move or drop leadership
+			case r < 11: // move or drop leadership
 				if cur := leaderOf(); cur != "" {
 					if rng.Intn(3) == 0 && !h.ep.up {
 						cdcWait(2*time.Second, func() bool { return h.cnt[cur].holding.Load() })
@@ -1288,6 +1483,19 @@ func cdcRandom(i int) cdcScenario {
 					err = h.lead(cur, false)
 				}
 				if err == nil && rng.Intn(4) != 0 {
+					err = h.lead(id, true)
+				}
+			case r < 13: // leadership flap burst on any node, in any state (batch parked or not, endpoint up or down)
+				if h.nodes[id].want {
+					if !h.ep.up && rng.Intn(2) == 0 {
+						cdcWait(2*time.Second, func() bool { return h.cnt[id].holding.Load() })
+					}
+					err = h.lead(id, false)
+				}
+				if err == nil {
+					err = h.flapBurst(id, 1+rng.Intn(20), rng.Intn(4) != 0)
+				}
+				if err == nil && rng.Intn(2) == 0 && leaderOf() == "" {
 					err = h.lead(id, true)
 				}
 			case r < 14:
@@ -1333,7 +1541,7 @@ func cdcRun(w *ndWriter, base string, sc cdcScenario, seed int64) (*cdcResult, e
 		return nil, err
 	}
 	defer os.RemoveAll(dir)
-	h := &cdcH{w: w, base: dir, par: sc.Par, nodes: map[string]*cdcNode{}, cnt: map[string]*cdcCounters{}, sigs: map[string][2]int{}, expect: map[[2]int]map[string]bool{}}
+	h := &cdcH{w: w, base: dir, par: sc.Par, nodes: map[string]*cdcNode{}, cnt: map[string]*cdcCounters{}, sigs: map[string][2]int{}, expect: map[[2]int]map[string]bool{}, flap: map[string]*cdcFlap{}}
 	h.ep = &cdcEndpoint{h: h, up: true}
 	h.ep.srv = httptest.NewServer(h.ep)
 	defer h.ep.srv.Close()
@@ -1348,6 +1556,8 @@ func cdcRun(w *ndWriter, base string, sc cdcScenario, seed int64) (*cdcResult, e
 	}
 	vhook.SetSink(h.sink)
 	defer vhook.SetSink(nil)
+	vhook.SetGate(h.gate)
+	defer vhook.SetGate(nil)
 	emit("", "reset", "name", sc.Name, "nodes", sc.Nodes)
 	defer func() {
 		for _, n := range h.nodes {
@@ -1636,6 +1846,7 @@ func cdcLive(h *cdcH, base string, g *cdcGen) (*cdcResult, error) {
 		old := svcs[f.ID]
 		mu.Unlock()
 		h.ingested(f.ID)
+		cdcWait(30*time.Second, func() bool { return int64(old.svc.VerifWritesToBatcher()) >= h.cnt[f.ID].inKept.Load() })
 		old.svc.Stop()
 		emit("", "c.restart", "node", f.ID, "snap", 0)
 		h.cnt[f.ID].resetPipeline()
@@ -1737,7 +1948,7 @@ func cdcLiveRun(w *ndWriter, base string, seed int64) (*cdcResult, error) {
 		return nil, err
 	}
 	defer os.RemoveAll(dir)
-	h := &cdcH{w: w, base: dir, nodes: map[string]*cdcNode{}, cnt: map[string]*cdcCounters{}, sigs: map[string][2]int{}, expect: map[[2]int]map[string]bool{}}
+	h := &cdcH{w: w, base: dir, nodes: map[string]*cdcNode{}, cnt: map[string]*cdcCounters{}, sigs: map[string][2]int{}, expect: map[[2]int]map[string]bool{}, flap: map[string]*cdcFlap{}}
 	for _, id := range []string{"n1", "n2", "n3"} {
 		h.cnt[id] = &cdcCounters{}
 		h.order = append(h.order, id)
